@@ -198,6 +198,14 @@ def oracle(impl, o):
                 # antisymmetric up to dict kind / order and deque maxlen: same number of nodes and leaves
                 if sp.num_nodes != sf.num_nodes or sp.num_leaves != sf.num_leaves:
                     fails.append({'key': 'antisymmetry', 'what': 'mutual prefixes with different sizes'})
+        # the functional wrappers agree with the methods (both directions, strict and not)
+        for strict in (False, True):
+            w1, m1 = outcome(lambda: optree.treespec_is_prefix(sp, sf, strict=strict)), outcome(lambda: sp.is_prefix(sf, strict=strict))
+            w2, m2 = outcome(lambda: optree.treespec_is_suffix(sf, sp, strict=strict)), outcome(lambda: sf.is_suffix(sp, strict=strict))
+            w3, m3 = outcome(lambda: optree.treespec_is_suffix(sp, sf, strict=strict)), outcome(lambda: sf.is_prefix(sp, strict=strict))
+            if w1[:2] != m1[:2] or w2[:2] != m2[:2] or w3[:2] != m3[:2] or (m1[0] == 'ok' and m2[0] == 'ok' and m1[1] != m2[1]):
+                fails.append({'key': 'wrapper-is-prefix-suffix', 'what': f'treespec_is_prefix / treespec_is_suffix (strict={strict}) disagree with the methods',
+                              'got': repr((w1, m1, w2, m2, w3, m3))[:300]})
         for s in (sp, sf):
             if not (s <= s) or (s < s):
                 fails.append({'key': 'reflexive', 'what': 'a <= a is false or a < a is true'})
